@@ -96,6 +96,17 @@ pub fn main(args: &[String]) -> i32 {
             }
             0
         }
+        Some("c02-find") => {
+            // index of the enumerated tree whose normal form equals the argument
+            let mut i = 0u64;
+            while let Some(t) = crate::mon::c02::enum_tree(i) {
+                if crate::mon::c02::norm_expr_top(&t) == args[1] {
+                    println!("{}", i);
+                }
+                i += 1;
+            }
+            0
+        }
         Some("parse") => {
             let text = std::fs::read_to_string(&args[1]).unwrap();
             match parser::parse_block(&text, parser::Mode::Luau) {
